@@ -11,3 +11,6 @@ import PvModel.Props.C19
 #print axioms Pv.C19_total
 #print axioms Pv.C19_delayed
 #print axioms Pv.C19_rerun_all
+#print axioms Pv.C19_chains
+#print axioms Pv.C19_chains_fail
+#print axioms Pv.C19_order_free
